@@ -9,6 +9,7 @@ import (
 	"os"
 
 	"git.defalsify.org/vise.git/cache"
+	"git.defalsify.org/vise.git/db"
 	"git.defalsify.org/vise.git/persist"
 	"git.defalsify.org/vise.git/render"
 	"git.defalsify.org/vise.git/resource"
@@ -251,6 +252,12 @@ func (en *DefaultEngine) ensurePersist() error {
 	en.pe = en.pe.WithContent(st, cac)
 	err := en.pe.Load(en.cfg.SessionId)
 	if err != nil {
+		if !db.IsNotFound(err) && !errors.Is(err, persist.ErrDecode) {
+			// a record that does not exist (or cannot be decoded) means a new session; a store
+			// that failed the read still holds the session, and saving a fresh one now would
+			// overwrite it
+			return err
+		}
 		logg.Infof("persister load fail. trying save in case new session", "err", err, "session", en.cfg.SessionId)
 		err = en.pe.Save(en.cfg.SessionId)
 		if err != nil {
